@@ -205,6 +205,22 @@ fn compile_adhoc_script(
     Ok(script_ref)
 }
 
+/// `aggregate_values` adds lovelace amounts unchecked: refuse lists whose total overflows.
+fn ensure_coin_total_fits(values: &[primitives::Value]) -> Result<(), Error> {
+    let total = values.iter().try_fold(0u64, |acc, value| match value {
+        primitives::Value::Coin(x) => acc.checked_add(*x),
+        primitives::Value::Multiasset(x, _) => acc.checked_add(*x),
+    });
+
+    match total {
+        Some(_) => Ok(()),
+        None => Err(Error::CoerceError(
+            "sum of lovelace amounts".to_string(),
+            "Coin".to_string(),
+        )),
+    }
+}
+
 fn compile_output_block(
     ir: &tir::Output,
     network: Network,
@@ -217,6 +233,8 @@ fn compile_output_block(
         .iter()
         .map(compile_value)
         .collect::<Result<Vec<_>, _>>()?;
+
+    ensure_coin_total_fits(&values)?;
 
     let value = asset_math::aggregate_values(values);
 
@@ -377,6 +395,9 @@ pub fn compile_cardano_publish_directive(
         .iter()
         .map(compile_value)
         .collect::<Result<Vec<_>, _>>()?;
+
+    ensure_coin_total_fits(&values)?;
+
     let value = asset_math::aggregate_values(values);
 
     let datum_option = adhoc.data.get("datum").map(compile_data_expr).transpose()?;
